@@ -260,9 +260,12 @@ func genMarshalRes(r *Rng, typ jsonapi.Type, o *Out) (jsonapi.Resource, map[stri
 	}
 	var res jsonapi.Resource
 	if r.bool() {
+		o.stat("res.soft")
+		if r.chance(1, 5) {
+			return newSoftShrunk(r, typ, mStrPool[r.IntN(len(mStrPool))], vals, o), vals
+		}
 		sr := newSoftVia(r, typ, o)
 		res = sr
-		o.stat("res.soft")
 		if r.chance(1, 3) {
 			// only some of the fields are ever set: the others read their zero value
 			o.stat("res.soft-partly-set")
